@@ -474,10 +474,105 @@ fn t_unbounded(data: &[u8], ctx: &mut Ctx) -> CheckResult {
     check_unbounded(&c, ctx)
 }
 
+/// The chain-side energy counter (`InterpreterEnergy`) that the v0/v1 hosts tick: sequences of
+/// `tick_energy` and `charge_memory_alloc` against the obvious model. A budget that exactly
+/// covers a charge must succeed with 0 left; one unit less must fail and leave 0; a larger
+/// budget changes only the remaining energy, by exactly the difference; memory is charged
+/// pages * 100 (MEMORY_COST_FACTOR as documented in constants.rs).
+fn t_interpreter_energy(data: &[u8], ctx: &mut Ctx) -> CheckResult {
+    use concordium_smart_contract_engine::InterpreterEnergy;
+    let mut u = Unstructured::new(data);
+    let n = g::range_usize(&mut u, 1, 12);
+    let mut charges: Vec<(bool, u64)> = Vec::new();
+    for _ in 0..n {
+        if g::ratio(&mut u, 1, 4) {
+            charges.push((true, *g::choose(&mut u, &[0u64, 1, 2, 31, 32, 511, 512, 65535, u32::MAX as u64])));
+        } else {
+            charges.push((false, match g::byte(&mut u) % 6 {
+                0 => 0,
+                1 => 1,
+                2 => g::range_u64(&mut u, 0, 100),
+                3 => g::range_u64(&mut u, 0, 100_000),
+                4 => u32::MAX as u64,
+                _ => g::boundary_u64(&mut u) >> 8,
+            }));
+        }
+    }
+    let cost = |c: &(bool, u64)| if c.0 { c.1 * 100 } else { c.1 };
+    let total: u128 = charges.iter().map(|c| cost(c) as u128).sum();
+    let budgets: Vec<u64> = {
+        let t = total.min(u64::MAX as u128) as u64;
+        let mut b = vec![t, t.saturating_sub(1), t.saturating_add(1), 0, t / 2, t.saturating_add(g::range_u64(&mut u, 0, 1000))];
+        // exactly enough for a proper prefix
+        let k = g::idx(&mut u, charges.len());
+        let pre: u128 = charges[..k].iter().map(|c| cost(c) as u128).sum();
+        b.push(pre.min(u64::MAX as u128) as u64);
+        b
+    };
+    ctx.describe(|| format!("charges (is_memory_pages, amount): {:?}\nbudgets {:?}", charges, budgets));
+    for b in budgets {
+        let mut e = InterpreterEnergy::new(b);
+        let mut model: u64 = b;
+        let mut failed = false;
+        for (i, c) in charges.iter().enumerate() {
+            let amount = cost(c);
+            let r = if c.0 { e.charge_memory_alloc(c.1 as u32) } else { e.tick_energy(amount) };
+            if model >= amount {
+                model -= amount;
+                if model == 0 {
+                    ctx.class("exact-budget-charge");
+                }
+                vensure!(
+                    r.is_ok() && e.energy == model,
+                    "energy-counter",
+                    "budget {}: charge #{} of {} with {} left: result ok={} remaining {}, expected success with {} left",
+                    b,
+                    i,
+                    amount,
+                    model + amount,
+                    r.is_ok(),
+                    e.energy,
+                    model
+                );
+            } else {
+                vensure!(
+                    r.is_err() && e.energy == 0,
+                    "energy-counter",
+                    "budget {}: charge #{} of {} with only {} left: result ok={} remaining {}, expected out-of-energy with 0 left",
+                    b,
+                    i,
+                    amount,
+                    model,
+                    r.is_ok(),
+                    e.energy
+                );
+                failed = true;
+                break;
+            }
+        }
+        if failed {
+            ctx.class("ran-out");
+        } else {
+            ctx.class("sufficient");
+            vensure!(
+                e.energy as u128 == b as u128 - total,
+                "budget-monotone",
+                "budget {} minus total {} is not the remaining energy {}",
+                b,
+                total,
+                e.energy
+            );
+        }
+    }
+    ctx.nontrivial(&charges);
+    ctx.sample(|| format!("{} charges, total {}", charges.len(), total));
+    Ok(())
+}
+
 pub fn property() -> Property {
     Property {
         id: "C02",
-        rule: "wasmgen modules compiled with injected metering (cost V0 or V1, validation V0 or V1) and run with a recording host. Target exact: terminating programs with ample energy - the energy ticked must equal the independently transcribed cost schedule summed over the instructions the reference interpreter executed (+ per-frame locals charge + taken-br_if branch cost); at every host call the ticked energy equals the cost of everything executed so far; on a trap ticked is within [executed, executed + rest of the straight-line segment]; memory.grow is announced (with the pre-growth memory size) before it happens; two runs are identical; a budget >= total changes only the remaining energy by exactly the difference, a budget < total ends out-of-energy with a prefix of the events. Target unbounded: programs with unguarded loops/recursion under small budgets must stop within 16*(L+8)*(E+2) interpreter steps (hook step counter), never tick more than the budget, and agree with the reference run under the same budget. Non-trivial = run with a loop back-edge or call and >= 3 tick events (exact) / out-of-energy or completion in a program with back-edges or calls (unbounded).",
+        rule: "wasmgen modules compiled with injected metering (cost V0 or V1, validation V0 or V1) and run with a recording host. Target exact: terminating programs with ample energy - the energy ticked must equal the independently transcribed cost schedule summed over the instructions the reference interpreter executed (+ per-frame locals charge + taken-br_if branch cost); at every host call the ticked energy equals the cost of everything executed so far; on a trap ticked is within [executed, executed + rest of the straight-line segment]; memory.grow is announced (with the pre-growth memory size) before it happens; two runs are identical; a budget >= total changes only the remaining energy by exactly the difference, a budget < total ends out-of-energy with a prefix of the events. Target unbounded: programs with unguarded loops/recursion under small budgets must stop within 16*(L+8)*(E+2) interpreter steps (hook step counter), never tick more than the budget, and agree with the reference run under the same budget. Target interpreter-energy: the chain-side energy counter under generated charge sequences and budgets at, one below and above the exact total. Non-trivial = run with a loop back-edge or call and >= 3 tick events (exact) / out-of-energy or completion in a program with back-edges or calls (unbounded).",
         assumptions: &[
             "the cost schedule oracle is a manual transcription of the documented V0/V1 tables (wasmgen::cost); a consistent change of both would go unnoticed",
             "the recording host charges nothing for memory pages (the chain-side charge per page is covered with the host functions, C14)",
@@ -491,6 +586,7 @@ pub fn property() -> Property {
                 ("memory-grow", 0.02),
                 ("budget-insufficient", 0.2),
             ]),
+            Target::new("interpreter-energy", t_interpreter_energy).len(8, 200).cases(100_000, 2_000_000).floors(&[("exact-budget-charge", 0.3)]),
             Target::new("unbounded", t_unbounded)
                 .len(32, 1024)
                 .cases(40_000, 2_000_000)
